@@ -11,6 +11,10 @@
    accepted, what a navigator reads - is the same after EVERY history of calls as in a fresh process; so
    parsing the same copybook again gives the same names.  All histories: induction over the list, no bound.
 
+   (Added later: the first half now has a theorem of its own over an explicit heap model with object identity, relative to
+   an effect summary of the source regenerated on every run - companion file Props/C11c.v.  What follows describes THIS
+   file's model.)
+
    WHAT IS NOT PROVED, AND CANNOT BE IN THIS MODEL (first half: the JSON document and the loaded schema equal
    their initial state): a Gallina value cannot be written to, so in a functional model the statement is true
    by construction and a theorem about it would say nothing about Python aliasing.  NO theorem is claimed for
